@@ -238,7 +238,7 @@ STEM = st.one_of(
 	st.text(alphabet='abcXYZ019._- ,', min_size=1, max_size=10),
 	st.text(alphabet='abc ,"\'üé日本()[];=&%#!~@', min_size=1, max_size=8),
 	st.sampled_from(['genome', 'a,b', 'x y', '"q"', 'ü', 'sample.1', 'GCF_000005845.2_ASM584v2_genomic', '-dash', 'a.b.c', ' lead', 'trail ',
-	                 '#12_S1', '# note', ';semi', '//c', '%x', '!bang', '~tilde', '@at', '$HOME', '*star', '?q', '[a]', '{b}', '\\back', '`tick`']),
+	                 '#12_S1', '# note', ';semi', 'isolate_Kfa', 'xfasta', 'run3-gz', 'ecoli_alfa', 'Xfna', 'assembly.gfa', 'sample_faa', 'afrn', 'offn', 'fa', 'gz', 'x.gzip', 'Cafe\u0301_isolate', 'Scho\u0308nlein', 'sample_5\u212b', '\u1100\u1161', 'ﬁle', '\uf900x', '//c', '%x', '!bang', '~tilde', '@at', '$HOME', '*star', '?q', '[a]', '{b}', '\\back', '`tick`']),
 )
 EXT = st.sampled_from(['.fasta', '.fa', '.fna', '.ffn', '.faa', '.frn', '.txt', '', '.fasta', '.fa'])
 
